@@ -74,6 +74,8 @@ def prepare():
                 except OSError:
                     pass
     sys.path.insert(0, root)
+    from . import cover
+    cover.start(root)
     for name in list(sys.modules):
         if name == "jellyfysh" or name.startswith("jellyfysh."):
             del sys.modules[name]
